@@ -4,6 +4,7 @@ package main
 
 import (
 	"fmt"
+	"os"
 	"go/types"
 	"sort"
 	"strings"
@@ -121,6 +122,9 @@ func (x *Exec) where() string {
 }
 
 func (x *Exec) tpanic(msg string) {
+	if os.Getenv("SYMGO_DEBUG") != "" {
+		fmt.Fprintln(os.Stderr, "target panic:", msg, x.where())
+	}
 	panic(&targetPanic{Msg: msg, Site: x.site()})
 }
 
